@@ -8,3 +8,7 @@ import SSEPyVerif.Proofs.Bytes
 import SSEPyVerif.Props.C17
 import SSEPyVerif.Proofs.Bits
 import SSEPyVerif.Props.C18
+import SSEPyVerif.Model.PHash
+import SSEPyVerif.Proofs.PHash
+import SSEPyVerif.Props.C16
+import SSEPyVerif.Driver.CryptoD
